@@ -72,3 +72,7 @@ add("C11", "SCHED", "model_checking", "stateless preemption-bounded DFS over thr
 add("C12", "SCHED", "model_checking", "stateless preemption-bounded DFS over thread interleavings of the real server (request threads, gcTicker, cache timers, eviction goroutines, Close) with dead-lock and live-lock detection",
     "27-31 scenarios (uploads racing with expiry and eviction, requests racing with a pending collection tick, a cancelled context behind a collection, repository cache expiry, Close racing with requests, first access of a legacy layout) are explored over all interleavings up to preemption bound 2 / 3 on both stores: every thread must finish; 'no enabled thread while a thread is unfinished' is a dead-lock, exceeding the horizon a live-lock.",
     TRUSTED + " At most 3 request threads plus background threads; a lock cycle needing more participants is out of reach.", "DESIGN.md section 4 C12")
+
+add("C13", "SCHED", "model_checking", "stateless preemption-bounded DFS over thread interleavings under the race detector (controlled scheduler invisible to the detector)",
+    "The C11 and C12 scenario bodies without Close are explored over all interleavings up to preemption bound 1 (quick) / 2 (thorough) in a -race build whose thread hand-off (pipes, raw system calls in //go:norace code) creates no happens-before edge the detector can see: in every enumerated schedule the detector reports each conflicting access pair that olareg's own synchronisation leaves unordered. Reports are attributed to the scenario and de-duplicated by access-site pair.",
+    TRUSTED + " The detector's own limits (4 shadow cells per word, bounded history, os file I/O synchronising through ioSync) apply.", "DESIGN.md section 4 C13")
